@@ -115,7 +115,9 @@ def gen_params(rng, tier):
                 d[gen.STR_COL] = "NaN"
             rows.append([d, 1.0])
         return {"spec": spec, "src": src, "dst": dst, "kind": kind, "rows": rows,
-                "np": any("q" in s for s in gen.walk(spec))}
+                "np": any("q" in s for s in gen.walk(spec)),
+                # the shared aggregator may have been used (filled, serialised) on its own before it was installed twice
+                "prefill": rng.choice([0, 0, 1, 2])}
     raise RuntimeError("no aliasable tree")
 
 
@@ -163,6 +165,16 @@ class C16Exec(execs.PyExec):
         aliased = False
         if p["kind"] in ("ancestor", "other"):
             obj = get_at(t, [tuple(s) for s in p["src"]])
+            if p.get("prefill") and p["kind"] == "other":
+                # filled on its own first (row-wise or vectorised): it then carries whatever bookkeeping a fill leaves
+                pre = p["rows"][0][0] if p["rows"] else [0.5, 0.5, 0.5, 0.5, "a", True, [1.0, 0.0], "a"]
+                try:
+                    if p["prefill"] == 2 and p["np"]:
+                        obj.fill.numpy(execs.np_columns([pre]))
+                    else:
+                        obj.fill(pre, 1.0)
+                except Exception:  # noqa: BLE001 - a sub-aggregator that cannot be filled on its own is simply not pre-filled
+                    pass
             set_at(t, [tuple(s) for s in p["dst"]], obj)
             ids = content_ids(t)
             aliased = len(ids) != len(set(ids)) or cyclic(t)
@@ -173,6 +185,9 @@ class C16Exec(execs.PyExec):
                          c=hg.Categorize(gen.make_quantity(gen.STR_COL), tm))
         msgs = []
         rows = [(r[0], r[1]) for r in p["rows"]]
+        if not rows:
+            # a case shrunk to no records still has to attempt one fill, otherwise "did not raise" is vacuous
+            rows = [([0.5, 0.5, 0.5, 0.5, "a", True, [1.0, 0.0], "a"], 1.0)]
         import json as _json
 
         def state():
